@@ -86,7 +86,9 @@ class Impl:
                 self.regs[i] = self.Register(f"R{i}", self.Both, hardware=self.layers[assign[i]])
             else:
                 self.regs[i] = self.Register(f"R{i}", self.Both)
-        self.hw._registers = {r.name: r for r in self.regs.values()}
+        table = self.hw.registers          # public property; filled in place, whatever the base class calls its dict
+        table.clear()
+        table.update({r.name: r for r in self.regs.values()})
 
     def render(self, res: str, dup: bool = False) -> str:
         """result, per-layer sequence of delivered (register, value) pairs (whatever calls carried them; `~` for a
